@@ -6,6 +6,11 @@ ENV = "GOFLAGS=-mod=mod GOPROXY=off GOSUMDB=off GOTOOLCHAIN=local GOWORK=off"
 
 # id -> (clause decided, level_note (assumed / trusted / NOT decided), technique, design_ref)
 CLAIMED = {
+    "C02": (
+        "Per rewrite site of the optimizer (every call of ast.Patch, directly or through a local wrapper), the clauses without which the rewrite cannot be meaning-preserving: a rewrite that keeps a dynamic operand of the matched node while replacing its sibling or operator (literal-array membership → map lookup, literal-range membership → two comparisons) is reached only on paths whose conditions pin the operand's STATIC TYPE to one predeclared kind (not nil, not another kind, not a named type), the kind being the lookup map's key kind; a fold that computes on integer literals in Go int under an operator through which the checker's literal retyping descends is reached only for literals whose type is nil or plain int; no replacement uses an operand twice or drops a child that the path has not established to be a literal; the only errors the optimizer creates are the constant division/modulo by zero and the recovered panic of a compile-time call, and Optimize returns nothing else; expr.Compile runs the optimizer only under the Optimize option, after the last type check, operator patch and visitors, before code generation; each fold applies the Go operator (math.Pow for **) that its case's DSL operator denotes, operands in order; constant integer division is dominated by the zero test; `x in a..b` becomes `x >= a and x <= b`, `not in` its negation. Each is a necessary condition with a concrete optimized-vs-unoptimized counterexample when broken.",
+        "Trusted: go/types, the rewrite-site extractor, the path enumerator and the finite abstract evaluation of type guards (nil | kind × named/predeclared; three-valued, so a condition it cannot read excludes nothing and the site fails closed). Two known findings (F9n: an operand without static type still reaches the range rewrite; F12: the range rewrite shares one operand node). NOT decided: equality of results itself; integer overflow differences between folded and run-time arithmetic; purity of ConstExpr functions; agreement of the compile-time and run-time range builders (R2.7) and element order of literal-array folds (R2.8), not built.",
+        "rewrite-site analysis: path-sensitive abstract evaluation of type guards over a finite type abstraction + linearity/drop census + error-site census + stage ordering over the paths of expr.Compile + operator agreement of folds",
+        "DESIGN.md §4 C02"),
     "C04": (
         "Panic CONTAINMENT for the kinds of panic whose presence is visible in the code (not the absence of all panics): every guard frame defers its recover before any unprotected dynamic call and records an error on the recovered path (statements before the defer are analysed as unprotected); the walker, the type checker and the compiler each have a clause for every node kind, so their `default: panic` is unreachable for trees of the module's kinds, including trees rewritten by user visitors; in the unguarded region — library functions reachable from Parse, Compile, Eval, Run, vm.Run, (*VM).Run and the option closures without entering a guard frame, plus the guard frames' handlers — there is no explicit panic other than such a default and no single-value type assertion that is not dominated by a successful test of the same assertion; every return of an API function yields (zero, error) or (value, nil). Each clause is a necessary condition: breaking it gives a concrete input on which an API call panics or returns a value together with an error.",
         "Trusted: go/types, go/ssa, the VTA call graph (with the option closures added as roots, because `op(config)` is an edge no call graph resolves). NOT decided, and said so in the evidence: termination; value-dependent run-time panics in the unguarded region (index and slice bounds, nil dereference including method calls on a nil reflect.Type — DESIGN K3 was not built —, reflect argument ranges, stack exhaustion); panics raised by user visitors; that every recorded first error is returned (R4.5 not built).",
@@ -72,7 +77,6 @@ CLAIMED = {
 _NOT_BUILT = "DESIGN.md §4 names the structural clause static analysis could decide, but the checker for it was not built in the time available; nothing is claimed. The behavioural statement itself quantifies over run-time values (results of evaluation for every input and environment) and no sound static argument in reach bounds those"
 NOT_APPLICABLE = {
     "C01": "conformance of evaluated results to the language definition for every expression and environment value is a statement about run-time values; the structural clauses of DESIGN.md §4 C01 (dispatcher exhaustiveness, operand order of templates, short-circuit shape) were not built. " + _NOT_BUILT,
-    "C02": "observational equivalence of optimized and unoptimized programs quantifies over all environment values; the guard analysis of the rewrite sites (DESIGN.md §4 C02) was not built, and its planned fixes were therefore not applied. " + _NOT_BUILT,
     "C03": "type soundness over all environment values of a type needs an abstract interpretation of checker and VM over reflect types that is out of reach; the agreement rules of DESIGN.md §4 C03 were not built. " + _NOT_BUILT,
     "C15": "equality of results between typed and untyped compilation for every environment value is a run-time equivalence; the instruction-selection guard rules of DESIGN.md §4 C15 were not built. " + _NOT_BUILT,
     "C16": "agreement of the checker's name table with reflection-based lookup for every environment type quantifies over all Go types; the member-class agreement rules of DESIGN.md §4 C16 were not built. " + _NOT_BUILT,
